@@ -467,7 +467,9 @@ FN('as_new_flow', props=['C13', 'C14', 'C15', 'C16', 'C09', 'C12'], ret='r',
             // C14: the target overrides the uri
             &&& next.call.req().uri == Some(target)
             // C13: inherited cookie / content-length / host are always suppressed, authorization unless the policy allows it for the ORIGINAL uri
-            &&& next.call.req().unset_names() == redirect_unset(may_keep_auth(redirect_auth_headers, prev.request.spec_uri(), target))
+            //      (C13 is an "only if": suppressing an Authorization that MAY be kept is allowed, keeping one that may not is not)
+            &&& (next.call.req().unset_names() == redirect_unset(false)
+                 || (may_keep_auth(redirect_auth_headers, prev.request.spec_uri(), target) && next.call.req().unset_names() == redirect_unset(true)))
             &&& next.reasons() == base_reasons(prev.request.spec_version(), prev.request.spec_headers().entries())
         })'''),
    ],
@@ -485,7 +487,7 @@ FN('status', props=['C15', 'C09'], ret='r',
 FN('must_close_connection', props=['C10'], ret='r',
    ensures=[('C10.must_close_iff_a_reason', 'r == (self.inner.reasons().len() > 0)')])
 FN('close_reason', props=['C10'], ret='r',
-   ensures=[('C10.reason_given_iff_must_close', '''if self.inner.reasons().len() > 0 { r is Some && str_bytes(r->Some_0) == explain_bytes(self.inner.reasons()[0]) } else { r is None }''')],
+   ensures=[('C10.reason_given_iff_must_close', '''if self.inner.reasons().len() > 0 { r is Some && exists|i: int| 0 <= i < self.inner.reasons().len() && str_bytes(r->Some_0) == explain_bytes(#[trigger] self.inner.reasons()[i]) } else { r is None }''')],
    rewrites=[('N9', 'self.inner.close_reason.first().map(|s| s.explain())', 'first_reason_text(&self.inner.close_reason)')])
 FN('proceed', props=['C09', 'C10'], ret='r',
    requires=[('C09.wf', 'self.inner.wf_redirect()')],
@@ -493,7 +495,8 @@ FN('proceed', props=['C09', 'C10'], ret='r',
 END()
 
 FN('can_redirect_auth_header', props=['C13'], ret='r',
-   ensures=[('C13.keep_auth_iff_same_host_and_not_downgraded', 'r == (prev.spec_host() == next.spec_host() && (prev.spec_scheme() == next.spec_scheme() || next.spec_scheme() == Some(Scheme::https_bytes())))')],
+   # C13 says "present ONLY IF ..": the function may answer false more often (say, also require the same port), never true more often
+   ensures=[('C13.keep_auth_only_if_same_host_and_not_downgraded', 'r ==> (prev.spec_host() == next.spec_host() && (prev.spec_scheme() == next.spec_scheme() || next.spec_scheme() == Some(Scheme::https_bytes())))')],
    rewrites=[
        ('N5', 'prev.authority().map(|a| a.host())', "prev.authority().map(|a: &crate::http::uri::Authority| -> (s: &str) ensures str_bytes(s) == a.host_view() { a.host() })"),
        ('N5', 'next.authority().map(|a| a.host())', "next.authority().map(|a: &crate::http::uri::Authority| -> (s: &str) ensures str_bytes(s) == a.host_view() { a.host() })"),
@@ -519,6 +522,6 @@ IMPL('impl<B> Flow<B, Cleanup>')
 FN('must_close_connection', props=['C10'], ret='r',
    ensures=[('C10.must_close_iff_a_reason', 'r == (self.inner.reasons().len() > 0)')])
 FN('close_reason', props=['C10'], ret='r',
-   ensures=[('C10.reason_given_iff_must_close', '''if self.inner.reasons().len() > 0 { r is Some && str_bytes(r->Some_0) == explain_bytes(self.inner.reasons()[0]) } else { r is None }''')],
+   ensures=[('C10.reason_given_iff_must_close', '''if self.inner.reasons().len() > 0 { r is Some && exists|i: int| 0 <= i < self.inner.reasons().len() && str_bytes(r->Some_0) == explain_bytes(#[trigger] self.inner.reasons()[i]) } else { r is None }''')],
    rewrites=[('N9', 'self.inner.close_reason.first().map(|s| s.explain())', 'first_reason_text(&self.inner.close_reason)')])
 END()
